@@ -49,6 +49,7 @@ class Fn:
         self.body = d.get("body", -1)
         self._parent = None
         self._pos = None
+        self._dup = None
         self.blocks = {b["id"]: b for b in self.cfg}
         self.entry = next((b["id"] for b in self.cfg if b.get("entry")), None)
         self.exit = next((b["id"] for b in self.cfg if b.get("exit")), None)
@@ -179,6 +180,9 @@ class Fn:
         if k == "ref":
             if n["dk"] in ("global", "enumconst", "func", "static_local"):
                 return n.get("qname", n["name"])
+            if n["name"] in self.dup_names:
+                # two distinct locals share this name (e.g. range-for's __begin2)
+                return "%s@%s" % (n["name"], n.get("decl", "").split("@")[-1].split(":")[0])
             return n["name"]
         if k == "this":
             return "this"
@@ -241,6 +245,19 @@ class Fn:
         if k == "other":
             return "%s(%s)" % (n.get("cls", "?"), ", ".join(T(a) for a in n.get("kids", [])))
         return k
+
+    @property
+    def dup_names(self):
+        if getattr(self, "_dup", None) is None:
+            seen = {}
+            for n in self.nodes:
+                if n["k"] == "ref" and n.get("decl"):
+                    seen.setdefault(n["name"], set()).add(n["decl"])
+                elif n["k"] == "decl":
+                    for v in n.get("vars", []):
+                        seen.setdefault(v["name"], set()).add(v["decl"])
+            self._dup = {k for k, v in seen.items() if len(v) > 1}
+        return self._dup
 
     def callee(self, i):
         n = self.nodes[i]
@@ -419,6 +436,9 @@ class Program:
 def load(repo="/repo", use_cache=True):
     """Extract (cached) and merge; returns (Program, extraction stats)."""
     fp = facts.tree_fingerprint(repo)
+    with open(os.path.abspath(__file__), "rb") as _f:
+        import hashlib
+        fp = hashlib.sha256((fp + hashlib.sha256(_f.read()).hexdigest()).encode()).hexdigest()
     pk = os.path.join(facts.CACHE, "merged", fp + ".pickle")
     if use_cache and os.path.exists(pk):
         try:
@@ -436,6 +456,9 @@ def load(repo="/repo", use_cache=True):
     st["classes"] = len(prog.classes)
     st["nodes"] = sum(len(f.nodes) for f in prog.fns.values())
     st["blocks"] = sum(len(f.cfg) for f in prog.fns.values())
+    st["merged_cache"] = False
+    if os.environ.get("VERIF_NO_MERGED_CACHE"):
+        return prog, st
     os.makedirs(os.path.dirname(pk), exist_ok=True)
     tmp = pk + ".tmp.%d" % os.getpid()
     try:
